@@ -872,6 +872,66 @@ def rule_G1(ctx, rid='G1'):
                    f.where(bad[0][0]) if bad else f.where(),
                    'parameters with mutable defaults are not modified in place; no unlisted '
                    'global write' if not bad else bad[0][1])
+    # module-level mutable objects (dict / list / set bound at the top of a module) are
+    # process-wide state: no function may modify one in place, directly or through a local
+    # name bound to it
+    for m in prog.modules.values():
+        shared = {}
+        for st in m.tree.body:
+            if isinstance(st, ast.Assign) and len(st.targets) == 1 and \
+                    isinstance(st.targets[0], ast.Name) and (
+                        isinstance(st.value, (ast.Dict, ast.List, ast.Set)) or (
+                            isinstance(st.value, ast.Call) and
+                            isinstance(st.value.func, ast.Name) and
+                            st.value.func.id in ('dict', 'list', 'set'))):
+                shared[st.targets[0].id] = st
+        if not shared:
+            continue
+        hits = []
+        for f in prog.functions.values():
+            if f.module is not m:
+                continue
+            alias = dict((k, k) for k in shared)
+            for st in walk_no_nested(f.node):
+                if isinstance(st, ast.Assign) and len(st.targets) == 1 and \
+                        isinstance(st.targets[0], ast.Name) and \
+                        isinstance(st.value, ast.Name) and st.value.id in alias:
+                    alias[st.targets[0].id] = alias[st.value.id]
+            rebound = {st.targets[0].id for st in walk_no_nested(f.node)
+                       if isinstance(st, ast.Assign) and len(st.targets) == 1 and
+                       isinstance(st.targets[0], ast.Name) and
+                       not (isinstance(st.value, ast.Name) and st.value.id in alias)}
+            for st in walk_no_nested(f.node):
+                tg = []
+                if isinstance(st, ast.Assign):
+                    tg = st.targets
+                elif isinstance(st, ast.AugAssign):
+                    tg = [st.target]
+                elif isinstance(st, ast.Delete):
+                    tg = st.targets
+                for t in tg:
+                    b, sub = t, False
+                    while isinstance(b, ast.Subscript):
+                        b, sub = b.value, True
+                    if sub and isinstance(b, ast.Name) and b.id in alias and \
+                            b.id not in rebound - set(shared):
+                        hits.append((f, st, alias[b.id]))
+                if isinstance(st, ast.Expr) and isinstance(st.value, ast.Call) and \
+                        isinstance(st.value.func, ast.Attribute) and \
+                        st.value.func.attr in MUTATING_METHODS and \
+                        isinstance(st.value.func.value, ast.Name) and \
+                        st.value.func.value.id in alias and \
+                        st.value.func.value.id not in rebound - set(shared):
+                    hits.append((f, st, alias[st.value.func.value.id]))
+        for name in sorted(shared):
+            bad = [h for h in hits if h[2] == name]
+            ctx.ob(rid, '%s:%s-not-modified' % (m.modname, name), not bad,
+                   bad[0][0].where(bad[0][1]) if bad else '%s:%d' % (m.relpath,
+                                                                      shared[name].lineno),
+                   'module-level %s is never modified in place' % name if not bad else
+                   '`%s` in %s modifies the module-level object %s in place: what one sampler '
+                   'passes leaks into every later one in the same process'
+                   % (unparse(bad[0][1])[:50], bad[0][0].qualname, name))
     for m in prog.modules.values():
         faults = [x for x in shared_state_faults([], m.tree) if x[0] == 'class']
         ctx.ob(rid, '%s:no-class-level-mutable' % m.modname, not faults,
@@ -1075,6 +1135,99 @@ def rule_F9(ctx, rid='F9', classes=None):
                             % (len(nb), len(ng), [m[2] for m in ng]))
     ctx.ob(rid, 'fixture:F9', True, 'fixtures/F9_bad.py', 'rule fires on the bad fixture (%d '
            'sites) and is silent on the good one' % len(nb))
+    return n
+
+
+# ---------------------------------------------------------------------------
+# G2 no replicated references to one mutable object
+# ---------------------------------------------------------------------------
+
+def aliased_replications(fn_node):
+    """`[obj] * n` / `n * [obj]` where obj is a freshly built mutable object (a call, a list /
+    dict / set display): all n slots refer to the SAME object."""
+    out = []
+    for x in walk_no_nested(fn_node):
+        if isinstance(x, ast.BinOp) and isinstance(x.op, ast.Mult):
+            for lst in (x.left, x.right):
+                if isinstance(lst, (ast.List, ast.Tuple)) and lst.elts and any(
+                        isinstance(e, (ast.Call, ast.List, ast.Dict, ast.Set, ast.ListComp,
+                                       ast.DictComp)) and not (
+                            isinstance(e, ast.Call) and dotted(e.func) in (
+                                'int', 'float', 'str', 'bool', 'tuple', 'frozenset', 'len'))
+                        for e in lst.elts):
+                    out.append(x)
+    return out
+
+
+def rule_G2(ctx, rid='G2'):
+    ctx.rule(rid, 'no aliased replication: the package never builds a list by multiplying a '
+             'one-element list holding a freshly constructed mutable object ([obj()] * n makes '
+             'n references to ONE object, so filling "each" of them fills the same one)')
+    prog = ctx.program
+    bad_all = []
+    for f in sorted(prog.functions.values(), key=lambda x: x.qualname):
+        bad = aliased_replications(f.node)
+        for b in bad:
+            bad_all.append((f, b))
+    ctx.ob(rid, 'package:no-aliased-replication', not bad_all,
+           bad_all[0][0].where(bad_all[0][1]) if bad_all else 'nautilus/:0',
+           'no `[obj] * n` with a mutable element in %d functions' % len(prog.functions)
+           if not bad_all else
+           '`%s` in %s creates several references to one object: networks / rows restored or '
+           'filled "one by one" all end up identical to the last one'
+           % (unparse(bad_all[0][1])[:60], bad_all[0][0].qualname))
+    nb = [b for fn in _fixture_funcs('G2_bad.py') for b in aliased_replications(fn.node)]
+    ng = [b for fn in _fixture_funcs('G2_good.py') for b in aliased_replications(fn.node)]
+    if len(nb) < 2 or ng:
+        raise AnalysisError('G2 fixture self-check failed (bad %d, good %d)' % (len(nb), len(ng)))
+    ctx.ob(rid, 'fixture:G2', True, 'fixtures/G2_bad.py', 'rule fires on the bad fixture (%d '
+           'sites) and is silent on the good one' % len(nb))
+
+
+# ---------------------------------------------------------------------------
+# G3 an explicitly given option is stored as given
+# ---------------------------------------------------------------------------
+
+def rule_G3(ctx, rid='G3'):
+    ctx.rule(rid, 'explicit options are kept: a constructor option whose default is None and '
+             'that is stored in the attribute of the same name is stored unchanged whenever the '
+             'caller supplied it -- only the `is None` branch may replace it (so results depend '
+             'on the option as given, not on the pool size or other options)')
+    f = ctx.program.func('Sampler.__init__')
+    from .cfg import cfg_of
+    cfg = cfg_of(f)
+    a = f.node.args
+    allp = a.posonlyargs + a.args
+    defaults = [None] * (len(allp) - len(a.defaults)) + list(a.defaults)
+    opt = [p.arg for p, d in zip(allp, defaults)
+           if isinstance(d, ast.Constant) and d.value is None]
+    n = 0
+    for p in opt:
+        stores = [nn for nn in cfg.nodes if nn.kind == 'stmt' and isinstance(nn.ast, ast.Assign)
+                  and len(nn.ast.targets) == 1 and
+                  dotted(nn.ast.targets[0]) == '%s.%s' % (f.self_name, p)]
+        # only the stores of the constructor proper (not the resume block, which restores state)
+        stores = [nn for nn in stores if any(isinstance(x, ast.Name) and x.id == p
+                                             for x in ast.walk(nn.ast.value))]
+        if not stores:
+            continue
+        for st in stores:
+            bare = isinstance(st.ast.value, ast.Name) and st.ast.value.id == p
+            rebinds_ok = True
+            for d in cfg.defs_at(st.id, p):
+                if d == cfg.entry.id:
+                    continue
+                if not cfg.has_fact(d, '%s is None' % p, True):
+                    rebinds_ok = False
+            ok = bare and rebinds_ok
+            n += 1
+            ctx.ob(rid, 'Sampler.__init__:kept-as-given(%s)' % p, ok, f.where(st.ast),
+                   'an explicit %s is stored unchanged (only the None default is replaced)' % p
+                   if ok else
+                   '`%s` does not store an explicitly given %s unchanged: the value the caller '
+                   'asked for is altered (e.g. rounded to the pool size), so the same arguments '
+                   'and seed give different results under different pools'
+                   % (unparse(st.ast)[:60], p))
     return n
 
 
